@@ -28,6 +28,9 @@ type FakeConsensus struct {
 	Members []peer.ID
 	Trusted func(peer.ID) bool
 	FailLog bool
+	// FailState / FailPeers make the next n State() / Peers() calls fail.
+	FailState int
+	FailPeers int
 }
 
 // NewFakeConsensus makes an empty one.
@@ -67,6 +70,12 @@ func (c *FakeConsensus) LogUnpin(ctx context.Context, p *api.Pin) error {
 func (c *FakeConsensus) AddPeer(context.Context, peer.ID) error { return nil }
 func (c *FakeConsensus) RmPeer(context.Context, peer.ID) error  { return nil }
 func (c *FakeConsensus) State(context.Context) (state.ReadOnly, error) {
+	c.mu.Lock()
+	defer c.mu.Unlock()
+	if c.FailState > 0 {
+		c.FailState--
+		return nil, errors.New("state not available")
+	}
 	return c.St, nil
 }
 func (c *FakeConsensus) Leader(context.Context) (peer.ID, error) {
@@ -78,6 +87,12 @@ func (c *FakeConsensus) Leader(context.Context) (peer.ID, error) {
 func (c *FakeConsensus) WaitForSync(context.Context) error { return nil }
 func (c *FakeConsensus) Clean(context.Context) error       { return nil }
 func (c *FakeConsensus) Peers(context.Context) ([]peer.ID, error) {
+	c.mu.Lock()
+	defer c.mu.Unlock()
+	if c.FailPeers > 0 {
+		c.FailPeers--
+		return nil, errors.New("peers not available")
+	}
 	return append([]peer.ID{}, c.Members...), nil
 }
 func (c *FakeConsensus) IsTrustedPeer(ctx context.Context, p peer.ID) bool {
